@@ -228,7 +228,7 @@ def run(ctx, rep):
         "(subscript, conversion, nullable use, lookup, explicit raise) is in the ledger with the rule that discharges it; "
         "plus raise/append pairing (R2), mode independence (R3), tuple shape (R4), unknown-name report (R5) and the "
         "mechanical part of the termination argument (T)")
-    rep.rules_run = ["R1", "R2", "R3", "R4", "R5", "T"]
+    rep.rules_run = ["R1", "R2", "R3", "R4", "R5", "R6", "T"]
     rep.assumptions += [
         "external callees not in the partial-operation table are total (listed under assumed_total)",
         "RecursionError / MemoryError are outside the claim",
@@ -241,6 +241,9 @@ def run(ctx, rep):
         rule_r2_r3_r4(ctx, rep, sl, mps)
     if only in (None, "R5"):
         rule_r5(ctx, rep)
+    if only in (None, "R6"):
+        from .c05_worlds import rule_worlds
+        rule_worlds(ctx, rep, "C04")
     if only in (None, "T"):
         rule_termination(ctx, rep, sl)
     rep.floor("entry point x mode", 6)
